@@ -44,6 +44,10 @@ Weakest readings (also reported as assumptions)
             rows (only(cost_currency, balance), only(currency(price), balance)): the call's value is
             compared where the leading argument is non-NULL; the rows where it is NULL still count in
             the prefix sum of every later row;
+          * grouped first(balance) / last(balance): the running balance runs over the selected rows in scan
+            order, not per group; first() is only generated next to last(balance) in the same statement
+            (first() stops evaluating its operand after a group's first row and the column only advances
+            when evaluated, so alone it would not consult the balance on every selected row);
           * the value of the intervening IN target is compared only when the subquery returns rows
             (IN over an empty subquery is C08's business);
           * Inventories are compared with beancount's Inventory equality (lots keyed by currency+cost,
@@ -697,6 +701,67 @@ def check_bal(led, wname, fname, pname, stats, total=None):
 
 
 # ---------------------------------------------------------------------------------------------
+# (iv) grouped statements over the balance column: first()/last() keep one row's balance per group
+# shape -> [(target text, ast builder, 'first'|'last', reference on the prefix inventory)]
+GSHAPES = {
+    'last,first': [
+        ('last(balance)', lambda: F('last', col('balance')), 'last', lambda inv: inv),
+        ('first(balance)', lambda: F('first', col('balance')), 'first', lambda inv: inv),
+    ],
+    'first,last(units),last(cost),last': [
+        ('first(balance)', lambda: F('first', col('balance')), 'first', lambda inv: inv),
+        ('last(units(balance))', lambda: F('last', F('units', col('balance'))), 'last', lambda inv: inv.reduce(convert.get_units)),
+        ('last(cost(balance))', lambda: F('last', F('cost', col('balance'))), 'last', lambda inv: inv.reduce(convert.get_cost)),
+        ('last(balance)', lambda: F('last', col('balance')), 'last', lambda inv: inv),
+    ],
+}
+# every shape contains last(balance): the column only advances when it is evaluated, and first() stops
+# evaluating its operand after the first row of a group -- with last(balance) in the statement every
+# selected row consults the balance, which is what the prefix-sum reading presupposes
+GSHAPE_GROUPS = {'last,first': ['account', 'currency', 'root', 'month'], 'first,last(units),last(cost),last': ['account', 'currency']}
+
+
+def check_balgrp(led, wname, fname, gname, shape, stats):
+    keys = GROUPS[gname][0]()
+    nk = len(keys)
+    spec = GSHAPES[shape]
+    targets = [(k, f'k{i}') for i, k in enumerate(keys)] + [(mk(), f'c{i}') for i, (_, mk, _, _) in enumerate(spec)]
+    stmt = select(targets, from_=FROM[fname][0](), where=WHERE[wname][0](), group_by=A.GroupBy(list(range(1, nk + 1)), None))
+    desc = bql(GROUP_TEXT[gname] + ', ' + ', '.join(t for t, _, _, _ in spec), wname, fname, gname)
+    try:
+        got = led.conn.execute(stmt).fetchall()
+    except Exception as e:
+        return [(f'crash:{crash_fingerprint(e)}', f'{desc}: {type(e).__name__}: {e}')]
+    stats['queries'] += 1
+    sel = led.selected(wname, fname)
+    keyf = GROUPS[gname][1]
+    firsts, lasts = {}, {}
+    pre = Inv()
+    for i in sel:
+        t, p = led.rows[i]
+        pre.add_position(p)
+        k = keyf(t, p)
+        snap = copy.copy(pre)
+        firsts.setdefault(k, snap)
+        lasts[k] = snap
+    gotmap = {tuple(r[:nk]): r[nk:] for r in got}
+    if set(gotmap) != set(lasts) or len(got) != len(lasts):
+        return [('group:keys', f'{desc}: groups {sorted(gotmap, key=repr)!r}, expected {sorted(lasts, key=repr)!r}')]
+    out = []
+    if len(lasts) > 1:
+        stats['grouped_balance_statements_with_several_groups'] += 1
+    for k in lasts:
+        for j, (text, _, which, ref) in enumerate(spec):
+            stats['cells'] += 1
+            stats['balance_refs'] += 1
+            exp = ref(firsts[k] if which == 'first' else lasts[k])
+            if gotmap[k][j] != exp:
+                out.append(('balance:grouped-first-last', f'{desc}: group {k!r} {text} = {show(gotmap[k][j])}, expected {show(exp)}: the prefix sum of position '
+                            f'over ALL selected rows up to and including the group\'s {which} row'))
+    return out
+
+
+# ---------------------------------------------------------------------------------------------
 # (v) balance consulted by WHERE on every scanned row
 def _usd(inv):
     return inv.get_currency_units('USD').number
@@ -776,6 +841,8 @@ def run_case(led, case, stats, fdates=None, total=None, totals=None):
         return check_balw(led, case['cond'], case['pattern'], stats)
     if kind == 'invsub':
         return check_invsub(led, case['where'], case['inner'], case['outer'], case['shape'], stats)
+    if kind == 'balgrp':
+        return check_balgrp(led, case['where'], case['from'], case['group'], case['shape'], stats)
     if kind == 'invtab':
         return check_invtab(led, case['variant'], case['gcol'], case['shape'], stats)
     raise AssertionError(kind)
@@ -846,6 +913,10 @@ def shard(shard_i, nshards, n, seed, tier):
                 for pname in PATTERNS:
                     case = led.case('bal', where=wname, **{'from': fname}, pattern=pname)
                     emit(case, run_case(led, case, stats, total=total))
+                for shape, gnames in GSHAPE_GROUPS.items():
+                    for gname in gnames:
+                        case = led.case('balgrp', where=wname, **{'from': fname}, group=gname, shape=shape)
+                        emit(case, run_case(led, case, stats))
         for cname in BCOND:
             for pname in BPATTERNS:
                 case = led.case('balw', cond=cname, pattern=pname)
@@ -925,6 +996,7 @@ def run(ctx):
         'groups_compared': c['groups'],
         'rows_folded_by_reference': c['rows_folded'],
         'balance_references_compared': c['balance_refs'],
+        'grouped_balance_statements_with_several_groups': c['grouped_balance_statements_with_several_groups'],
         'balance_references_behind_a_NULL_argument': c['balance_refs_behind_null_argument'],
         'rows_scanned_with_balance_in_where': c['rows_scanned_with_balance'],
         'balance_in_where_cases_that_filter': c['balw_filtering_cases'],
